@@ -1409,6 +1409,128 @@ class OnDemand(Family):
         ]
 
 
+# ---------------------------------------------------------------------------
+class Simple(Family):
+    """Values of many simple types in one document (targets of lexical mutations), XSD 1.1: type
+    alternatives and an assertion whose XPath does arithmetic and date casts on attribute values."""
+    name = 'simple'
+    paths = ('lst',)
+
+    def sources(self, version):
+        alt = ''
+        if version == '1.1':
+            alt = """
+   <xs:element name="alt" type="BaseAlt" minOccurs="0" maxOccurs="unbounded">
+    <xs:alternative test="xs:integer(@a) idiv xs:integer(@b) = 1" type="AltOne"/>
+    <xs:alternative test="xs:date(@d) lt xs:date('2020-06-01')" type="AltEarly"/>
+   </xs:element>"""
+        types11 = ''
+        if version == '1.1':
+            types11 = """
+ <xs:complexType name="BaseAlt"><xs:attribute name="a" type="xs:string"/><xs:attribute name="b" type="xs:string"/>
+  <xs:attribute name="d" type="xs:string"/></xs:complexType>
+ <xs:complexType name="AltOne"><xs:complexContent><xs:extension base="BaseAlt"><xs:attribute name="one" type="xs:int"/>
+  </xs:extension></xs:complexContent></xs:complexType>
+ <xs:complexType name="AltEarly"><xs:complexContent><xs:extension base="BaseAlt">
+  <xs:assert test="xs:integer(@a) + 1 gt 0"/></xs:extension></xs:complexContent></xs:complexType>"""
+        return {'simple.xsd': f"""<xs:schema {XS} xmlns:f="urn:f">
+ <xs:simpleType name="En"><xs:restriction base="xs:integer"><xs:enumeration value="1"/><xs:enumeration value="2"/>
+  <xs:enumeration value="3"/></xs:restriction></xs:simpleType>
+ <xs:simpleType name="Den"><xs:restriction base="xs:decimal"><xs:enumeration value="1.5"/><xs:enumeration value="2.5"/>
+  </xs:restriction></xs:simpleType>
+ <xs:simpleType name="Fen"><xs:restriction base="xs:double"><xs:enumeration value="1"/><xs:enumeration value="NaN"/>
+  </xs:restriction></xs:simpleType>
+ <xs:simpleType name="Td"><xs:restriction base="xs:decimal"><xs:totalDigits value="5"/><xs:fractionDigits value="2"/>
+  </xs:restriction></xs:simpleType>
+ <xs:simpleType name="Ints"><xs:list itemType="xs:int"/></xs:simpleType>
+ <xs:simpleType name="Un"><xs:union memberTypes="xs:int xs:date"/></xs:simpleType>{types11}
+ <xs:element name="root">
+  <xs:complexType><xs:sequence>
+   <xs:element name="en" type="En"/><xs:element name="den" type="Den"/><xs:element name="fen" type="Fen"/>
+   <xs:element name="dt" type="xs:date"/><xs:element name="gy" type="xs:gYear"/><xs:element name="du" type="xs:duration"/>
+   <xs:element name="tm" type="xs:time"/><xs:element name="fl" type="xs:float"/><xs:element name="td" type="Td"/>
+   <xs:element name="lst" type="Ints"/><xs:element name="un" type="Un" maxOccurs="2"/>
+   <xs:element name="qn" type="xs:QName"/><xs:element name="hx" type="xs:hexBinary"/>
+   <xs:element name="bo" type="xs:boolean"/>{alt}
+  </xs:sequence><xs:attribute name="n" type="xs:positiveInteger"/></xs:complexType>
+ </xs:element>
+</xs:schema>"""}
+
+    def _doc(self, version_alt='', en='1', lst='1 2 3', un2='2020-02-02'):
+        return (_decl() + f'<root xmlns:f="urn:f" n="1"><en>{en}</en><den>1.5</den><fen>1</fen><dt>2020-01-31</dt><gy>2020</gy>'
+                f'<du>P1Y</du><tm>00:00:00Z</tm><fl>1.5</fl><td>1.5</td><lst>{lst}</lst><un>1</un><un>{un2}</un>'
+                f'<qn>f:name</qn><hx>0A1B</hx><bo>true</bo>{version_alt}</root>\n')
+
+    def docs(self, rng):
+        alts = '<alt a="1" b="1" d="2020-01-01"/><alt a="2" b="1" d="2020-12-01"/><alt a="5" b="5" one="1"/>'
+        return [
+            Doc('si-valid', self._doc()),
+            Doc('si-valid-alt', self._doc(alts), kind='valid11'),
+            Doc('si-bad-enum', self._doc(en='7'), 'fault:lexical'),
+            Doc('si-bad-list', self._doc(lst='1 x 3'), 'fault:lexical'),
+            Doc('si-bad-union', self._doc(un2='neither'), 'fault:lexical'),
+        ]
+
+
+# ---------------------------------------------------------------------------
+class Grouped(Family):
+    """A named model group holding a local element with an identity constraint, referenced twice by
+    the root model: two same-named local declarations under one parent."""
+    name = 'grouped'
+    paths = ('l1', 'l1/v')
+
+    def sources(self, version):
+        return {'grouped.xsd': f"""<xs:schema {XS}>
+ <xs:group name="g"><xs:sequence>
+   <xs:element name="l1"><xs:complexType><xs:sequence><xs:element name="v" type="xs:string" maxOccurs="unbounded"/>
+    </xs:sequence></xs:complexType><xs:unique name="u"><xs:selector xpath="v"/><xs:field xpath="."/></xs:unique></xs:element>
+ </xs:sequence></xs:group>
+ <xs:element name="r"><xs:complexType><xs:sequence>
+   <xs:group ref="g"/><xs:element name="mid" type="xs:int"/><xs:group ref="g"/>
+ </xs:sequence></xs:complexType></xs:element>
+</xs:schema>"""}
+
+    def docs(self, rng):
+        return [
+            Doc('gr-valid', _decl() + '<r><l1><v>a</v><v>b</v></l1><mid>1</mid><l1><v>a</v></l1></r>'),
+            Doc('gr-dup-first', _decl() + '<r><l1><v>a</v><v>a</v></l1><mid>1</mid><l1><v>b</v></l1></r>', 'fault:dup-unique'),
+            Doc('gr-dup-second', _decl() + '<r><l1><v>a</v></l1><mid>1</mid><l1><v>b</v><v>b</v></l1></r>', 'fault:dup-unique'),
+            Doc('gr-bad-mid', _decl() + '<r><l1><v>a</v></l1><mid>x</mid><l1><v>b</v></l1></r>', 'fault:lexical'),
+        ]
+
+
+class LaxBuilt(Family):
+    """A schema with definition errors, built with validation='lax': what is left unresolved (a key
+    reference to a key that does not exist, an unknown type, an unknown base) must still validate."""
+    name = 'laxbuilt'
+    paths = ('i',)
+    assemblies = ('canonical',)
+
+    def sources(self, version):
+        return {'laxbuilt.xsd': f"""<xs:schema {XS}>
+ <xs:element name="r"><xs:complexType><xs:sequence>
+   <xs:element name="i" type="xs:string" maxOccurs="unbounded"/>
+   <xs:element name="u" type="NoSuchType" minOccurs="0"/>
+   <xs:element name="d" minOccurs="0"><xs:simpleType><xs:restriction base="NoSuchBase"><xs:maxLength value="2"/>
+    </xs:restriction></xs:simpleType></xs:element>
+  </xs:sequence><xs:attribute ref="noSuchAttr"/></xs:complexType>
+  <xs:keyref name="kr" refer="nokey"><xs:selector xpath="i"/><xs:field xpath="."/></xs:keyref>
+  <xs:key name="k"><xs:selector xpath="i"/><xs:field xpath="@nope | ."/></xs:key>
+ </xs:element>
+</xs:schema>"""}
+
+    def assemble(self, directory, cls, build=True, order=None):
+        import os
+        return cls(os.path.join(directory, 'laxbuilt.xsd'), build=build, validation='lax')
+
+    def docs(self, rng):
+        return [
+            Doc('lb-plain', _decl() + '<r><i>a</i><i>b</i></r>', 'lax:unknown'),
+            Doc('lb-dup', _decl() + '<r><i>a</i><i>a</i></r>', 'lax:unknown'),
+            Doc('lb-unknown-type', _decl() + '<r><i>a</i><u>x</u><d>abc</d></r>', 'lax:unknown'),
+        ]
+
+
 def double_fault(doc, rng, order='model-first'):
     """A model violation (unexpected child of the root) and a content error in another sibling, in either
     document order. Works on the one-root-child-per-line layout of the generated documents."""
@@ -1441,4 +1563,4 @@ def with_double_faults(docs, rng, n=4):
 
 
 FAMILIES = {f.name: f for f in (Ids(), Keys(), XsiType(), Subst(), Fixed(), Wild(), Ns(), Mixed(),
-                                Assert11(), Recur(), Multi(), Multi2(), Shadow(), IdFields(), Dtd(), Chameleon(), Big(), OnDemand())}
+                                Assert11(), Recur(), Multi(), Multi2(), Shadow(), IdFields(), Dtd(), Chameleon(), Big(), OnDemand(), Simple(), Grouped(), LaxBuilt())}
